@@ -282,6 +282,22 @@ def main():
     budget = {}
     for gname in order:
         budget[gname] = max(1, min(len(by_group[gname]), int(round(a.jobs * len(by_group[gname]) / total))))
+    # memory-bound machine: the job counts of all groups together must fit what is available now at
+    # each group's measured per-process footprint (est_gb, default 3 GB); shrink the largest first
+    try:
+        avail_gb = int(re.search(r"MemAvailable:\s+(\d+)", open("/proc/meminfo").read()).group(1)) / 1048576.0
+    except Exception:
+        avail_gb = 32.0
+    for gname in order:
+        budget[gname] = min(budget[gname], plan["groups"][gname].get("max_jobs", a.jobs))
+
+    def need():
+        return sum(budget[g] * float(plan["groups"][g].get("est_gb", 3)) for g in order)
+
+    while need() > max(8.0, avail_gb - 6) and any(budget[g] > 1 for g in order):
+        g = max((g for g in order if budget[g] > 1), key=lambda g: budget[g] * float(plan["groups"][g].get("est_gb", 3)))
+        budget[g] -= 1
+    serial = need() > max(8.0, avail_gb - 6)   # even one job per group does not fit: run groups one by one
     lock = threading.Lock()
 
     def run_group(gname):
@@ -291,14 +307,7 @@ def main():
         if seed:
             import random
             random.Random(seed).shuffle(names)
-        jobs = min(budget[gname], group.get("max_jobs", a.jobs))
-        # memory-bound machine: never start more solver processes than the memory that is available
-        # now can hold at this group's measured per-process footprint (est_gb, default 3 GB)
-        try:
-            avail_gb = int(re.search(r"MemAvailable:\s+(\d+)", open("/proc/meminfo").read()).group(1)) / 1048576.0
-            jobs = max(1, min(jobs, int((avail_gb - 4) / float(group.get("est_gb", 3)))))
-        except Exception:
-            pass
+        jobs = budget[gname]
         log("[%s] group %s: %d harnesses (timeout %ds each, -j %d)" % (pid, gname, len(names), group["timeout_s"], jobs))
         res, wall, tail = kani_group(pid, gname, group, names, jobs, workdir)
         log("[%s] group %s done in %.0fs" % (pid, gname, wall))
@@ -311,10 +320,15 @@ def main():
             log(tail)
 
     threads = [threading.Thread(target=run_group, args=(g,)) for g in order]
-    for t in threads:
-        t.start()
-    for t in threads:
-        t.join()
+    if serial:
+        for t in threads:
+            t.start()
+            t.join()
+    else:
+        for t in threads:
+            t.start()
+        for t in threads:
+            t.join()
 
     # ---- engine M ----
     if plan.get("smt"):
